@@ -1,1 +1,1094 @@
 use super::*;
+use crate::verif_common::*;
+
+// ---------------------------------------------------------------------------
+// Symbolic pre-state: ANY TransferControl state satisfying the representation
+// invariant acked <= sent (window, file index, offsets over the full 64/32-bit
+// range). Every such state is reachable through the public API
+// (advance_to_file(f); record_sent(s); record_ack(f, a); [cancel]; [resume]),
+// so no spurious pre-states are introduced; one arbitrary operation from every
+// such state covers histories of any length (inductive step).
+// ---------------------------------------------------------------------------
+struct Pre {
+    window: u64,
+    sent: u64,
+    acked: u64,
+    file: u32,
+    cancelled: bool,
+    pending: Option<u64>,
+}
+
+fn any_pre() -> Pre {
+    clock_init();
+    let p = Pre {
+        window: kani::any(),
+        sent: kani::any(),
+        acked: kani::any(),
+        file: kani::any(),
+        cancelled: kani::any(),
+        pending: if kani::any() { Some(kani::any()) } else { None },
+    };
+    kani::assume(p.acked <= p.sent);
+    p
+}
+
+const FIRST: &str = "r1";
+
+fn mk_with_ring(p: &Pre, ring: ReplayRing) -> TransferControl {
+    let t0 = instant_at(0);
+    TransferControl {
+        inner: Mutex::new(TransferControlInner {
+            window_bytes: p.window,
+            sent_offset: p.sent,
+            acked_offset: p.acked,
+            current_file_index: p.file,
+            cancelled: if p.cancelled { Some(String::from(FIRST)) } else { None },
+            last_chunk_at: t0,
+            last_ack_at: t0,
+            replay: ring,
+            peer: None,
+            pending_resume: p.pending.map(|o| PendingResume { resume_at_offset: o }),
+        }),
+        cv: Condvar::new(),
+    }
+}
+
+fn mk(p: &Pre) -> TransferControl {
+    mk_with_ring(p, ReplayRing::new(kani::any()))
+}
+
+struct NullSink;
+impl crate::peer::PeerSink for NullSink {
+    fn send_notify(&self, _m: &str, _b: crate::peer::NotifyBody) -> Result<(), crate::peer::PeerSendError> {
+        Ok(())
+    }
+}
+fn a_peer() -> PeerHandle {
+    PeerHandle::new(crate::peer::PeerId(7), Arc::new(NullSink))
+}
+
+fn reason_is(tc: &TransferControl, want: &str) -> bool {
+    match tc.cancel_reason() {
+        Some(s) => s.as_bytes() == want.as_bytes(),
+        None => false,
+    }
+}
+
+fn wait_timeout_unreachable<'a, T>(
+    _cv: &Condvar,
+    _g: std::sync::MutexGuard<'a, T>,
+    _d: Duration,
+) -> std::sync::LockResult<(std::sync::MutexGuard<'a, T>, std::sync::WaitTimeoutResult)> {
+    panic!("C11 harnesses use an expired deadline: Condvar::wait_timeout must not be reached");
+}
+
+//@ prop: C11
+//@ tier: quick
+//@ clause: acked never exceeds sent; an ack for another file or at/below acked releases nothing; an accepted ack moves acked to min(offset, sent); sent untouched
+//@ funcs: TransferControl::record_ack; TransferControl::offsets; TransferControl::is_cancelled
+//@ symbolic: pre-state (window, sent, acked<=sent, file index, cancelled?, pending resume?) and both arguments, all full width (hostile acks u64::MAX / wrong file / future offsets are just values)
+//@ bounds: one operation from an arbitrary invariant state (inductive step); loop-free
+//@ oracle: closed-form post-state from the property statement
+//@ stubs: Instant::now -> symbolic monotone clock; Condvar::notify_all -> counter
+//@ replay: playback
+#[kani::proof]
+#[kani::stub(std::time::Instant::now, crate::verif_common::now_stub)]
+#[kani::stub(std::sync::Condvar::notify_all, crate::verif_common::notify_all_stub)]
+#[kani::unwind(4)]
+fn c11_record_ack_step() {
+    let p = any_pre();
+    let tc = mk(&p);
+    let f: u32 = kani::any();
+    let off: u64 = kani::any();
+    tc.record_ack(f, off);
+    let (s, a) = tc.offsets();
+    assert!(s == p.sent, "record_ack changed sent_offset");
+    assert!(a <= s, "acked exceeds sent");
+    assert!(a >= p.acked, "acked moved backwards");
+    let capped = if off < p.sent { off } else { p.sent };
+    if f != p.file || capped <= p.acked {
+        assert!(a == p.acked, "stale / foreign ack released credit");
+    } else {
+        assert!(a == capped, "accepted ack did not move acked to min(offset, sent)");
+    }
+    assert!(tc.is_cancelled() == p.cancelled);
+    kani::cover!(f == p.file && off == u64::MAX && a == p.sent && p.sent > p.acked);
+    kani::cover!(f != p.file && off > p.acked);
+    std::mem::forget(tc);
+}
+
+//@ prop: C11
+//@ tier: quick
+//@ clause: sent is monotone under record_sent and acked is untouched by it
+//@ funcs: TransferControl::record_sent; TransferControl::offsets
+//@ symbolic: pre-state and the new offset, full width
+//@ bounds: one operation from an arbitrary invariant state
+//@ oracle: sent' == max(sent, new); acked' == acked
+//@ stubs: Instant::now -> symbolic monotone clock
+//@ replay: playback
+#[kani::proof]
+#[kani::stub(std::time::Instant::now, crate::verif_common::now_stub)]
+#[kani::unwind(4)]
+fn c11_record_sent_step() {
+    let p = any_pre();
+    let tc = mk(&p);
+    let n: u64 = kani::any();
+    tc.record_sent(n);
+    let (s, a) = tc.offsets();
+    assert!(s == if n > p.sent { n } else { p.sent });
+    assert!(a == p.acked && a <= s);
+    assert!(tc.is_cancelled() == p.cancelled);
+    kani::cover!(n < p.sent);
+    kani::cover!(n > p.sent);
+    std::mem::forget(tc);
+}
+
+//@ prop: C11
+//@ tier: quick
+//@ clause: credit is granted iff not cancelled and (nothing in flight or in-flight + chunk fits the window); cancelled waits report the cancel; otherwise an expired deadline yields Timeout
+//@ funcs: TransferControl::wait_for_credit
+//@ symbolic: pre-state full width; chunk_len <= 2^48 (the property's bound)
+//@ bounds: expired deadline so the wait loop body runs once (Condvar::wait_timeout stubbed to panic = proven unreachable)
+//@ oracle: in_flight + chunk <= window evaluated in u128
+//@ stubs: Instant::now -> symbolic monotone clock; Condvar::wait_timeout -> unreachable
+//@ replay: playback
+#[kani::proof]
+#[kani::stub(std::time::Instant::now, crate::verif_common::now_stub)]
+#[kani::stub(std::sync::Condvar::wait_timeout, wait_timeout_unreachable)]
+#[kani::unwind(4)]
+fn c11_wait_for_credit_predicate() {
+    let p = any_pre();
+    let tc = mk(&p);
+    let chunk: u64 = kani::any();
+    kani::assume(chunk <= (1u64 << 48));
+    let r = tc.wait_for_credit(chunk, instant_at(0));
+    let in_flight = (p.sent - p.acked) as u128;
+    let fits = in_flight == 0 || in_flight + chunk as u128 <= p.window as u128;
+    match r {
+        Ok(()) => {
+            assert!(!p.cancelled, "credit granted on a cancelled transfer");
+            assert!(fits, "credit granted although in-flight + chunk exceeds the window");
+        }
+        Err(CreditError::Cancelled(s)) => {
+            assert!(p.cancelled);
+            assert!(s.as_bytes() == FIRST.as_bytes());
+        }
+        Err(CreditError::Timeout) => {
+            assert!(!p.cancelled);
+            assert!(!fits, "credit refused although it fits");
+        }
+    }
+    let (s, a) = tc.offsets();
+    assert!(s == p.sent && a == p.acked);
+    kani::cover!(!p.cancelled && fits && in_flight > 0);
+    kani::cover!(!p.cancelled && !fits && in_flight + chunk as u128 > u64::MAX as u128);
+    kani::cover!(!p.cancelled && in_flight == 0 && chunk > p.window);
+    std::mem::forget(tc);
+}
+
+//@ prop: C11
+//@ tier: quick
+//@ clause: a producer following the documented loop (wait_for_credit Ok, then record_sent(sent+chunk)) never has more than one window, or one oversized chunk, unacknowledged
+//@ funcs: TransferControl::wait_for_credit; TransferControl::record_sent; TransferControl::offsets
+//@ symbolic: pre-state full width; chunk_len <= 2^48; sent + chunk assumed not to overflow u64 (documented producer contract)
+//@ bounds: one loop iteration from an arbitrary invariant state (inductive step)
+//@ oracle: in_flight' <= window or (in_flight' == chunk and nothing was in flight)
+//@ stubs: Instant::now -> symbolic monotone clock; Condvar::wait_timeout -> unreachable
+//@ replay: playback
+#[kani::proof]
+#[kani::stub(std::time::Instant::now, crate::verif_common::now_stub)]
+#[kani::stub(std::sync::Condvar::wait_timeout, wait_timeout_unreachable)]
+#[kani::unwind(4)]
+fn c11_producer_loop_step() {
+    let p = any_pre();
+    let tc = mk(&p);
+    let chunk: u64 = kani::any();
+    kani::assume(chunk <= (1u64 << 48));
+    kani::assume(p.sent <= u64::MAX - chunk);
+    if tc.wait_for_credit(chunk, instant_at(0)).is_ok() {
+        tc.record_sent(p.sent + chunk);
+        let (s, a) = tc.offsets();
+        let inflight = s - a;
+        assert!(inflight <= p.window || (inflight == chunk && p.sent == p.acked),
+            "more than one window (or one oversized chunk) unacknowledged");
+        kani::cover!(inflight > p.window);
+        kani::cover!(inflight == p.window && chunk > 0 && p.sent > p.acked);
+    }
+    std::mem::forget(tc);
+}
+
+//@ prop: C11
+//@ tier: quick
+//@ clause: cancellation is permanent and its first reason wins; every later credit or reconnect wait reports it; a resume is refused; offsets untouched
+//@ funcs: TransferControl::cancel; cancel_reason; is_cancelled; wait_for_credit; wait_for_reconnect; request_resume
+//@ symbolic: pre-state full width (already cancelled or not); chunk, resume file/offset arbitrary
+//@ bounds: two cancels with distinct reasons then one of each observer; reasons are 2-byte strings; unwind 4 covers the byte compares
+//@ oracle: reason == first reason ever given
+//@ stubs: Instant::now -> symbolic monotone clock; Condvar::notify_all -> counter; Condvar::wait_timeout -> unreachable
+//@ replay: playback
+#[kani::proof]
+#[kani::stub(std::time::Instant::now, crate::verif_common::now_stub)]
+#[kani::stub(std::sync::Condvar::notify_all, crate::verif_common::notify_all_stub)]
+#[kani::stub(std::sync::Condvar::wait_timeout, wait_timeout_unreachable)]
+#[kani::unwind(4)]
+fn c11_cancel_sticky_first_reason() {
+    let p = any_pre();
+    let tc = mk(&p);
+    tc.cancel("r2");
+    tc.cancel("r3");
+    let want = if p.cancelled { FIRST } else { "r2" };
+    assert!(tc.is_cancelled());
+    assert!(reason_is(&tc, want), "first cancel reason did not win");
+    match tc.wait_for_credit(kani::any(), instant_at(0)) {
+        Err(CreditError::Cancelled(s)) => assert!(s.as_bytes() == want.as_bytes()),
+        _ => panic!("credit wait after cancel did not report the cancel"),
+    }
+    match tc.wait_for_reconnect(Duration::from_secs(0)) {
+        ReconnectOutcome::Cancelled(s) => assert!(s.as_bytes() == want.as_bytes()),
+        _ => panic!("reconnect wait after cancel did not report the cancel"),
+    }
+    let r = tc.request_resume(a_peer(), kani::any(), kani::any());
+    assert!(r == Err(ResumeRejection::Cancelled), "resume accepted after cancel");
+    // later operations cannot un-cancel
+    tc.record_ack(kani::any(), kani::any());
+    tc.advance_to_file(kani::any());
+    assert!(reason_is(&tc, want));
+    std::mem::forget(tc);
+}
+
+//@ prop: C11
+//@ tier: quick
+//@ clause: advance_to_file resets both offsets to zero, switches the file index and discards a pending resume; cancel state preserved
+//@ funcs: TransferControl::advance_to_file; offsets; wait_for_reconnect; record_ack
+//@ symbolic: pre-state full width, next file index, a follow-up ack for the OLD file index
+//@ bounds: one advance then observers
+//@ oracle: (0,0); reconnect wait with zero timeout returns Timeout (not ResumeReady) unless cancelled; old-file ack releases nothing
+//@ stubs: Instant::now -> symbolic monotone clock; Condvar::notify_all -> counter; Condvar::wait_timeout -> unreachable
+//@ replay: playback
+#[kani::proof]
+#[kani::stub(std::time::Instant::now, crate::verif_common::now_stub)]
+#[kani::stub(std::sync::Condvar::notify_all, crate::verif_common::notify_all_stub)]
+#[kani::stub(std::sync::Condvar::wait_timeout, wait_timeout_unreachable)]
+#[kani::unwind(4)]
+fn c11_advance_step() {
+    let p = any_pre();
+    let tc = mk(&p);
+    let next: u32 = kani::any();
+    tc.advance_to_file(next);
+    assert!(tc.offsets() == (0, 0));
+    assert!(tc.is_cancelled() == p.cancelled);
+    match tc.wait_for_reconnect(Duration::from_secs(0)) {
+        ReconnectOutcome::ResumeReady(_) => panic!("pending resume survived a file advance"),
+        ReconnectOutcome::Cancelled(_) => assert!(p.cancelled),
+        ReconnectOutcome::Timeout => assert!(!p.cancelled),
+    }
+    // ack after advance, for the old file: must be ignored
+    tc.record_sent(kani::any());
+    let (s1, _) = tc.offsets();
+    let oldf: u32 = kani::any();
+    kani::assume(oldf != next);
+    tc.record_ack(oldf, kani::any());
+    assert!(tc.offsets() == (s1, 0), "ack for the previous file released credit after advance");
+    std::mem::forget(tc);
+}
+
+//@ prop: C11
+//@ tier: quick
+//@ clause: a resume moves acked only forward, never beyond sent, and only when accepted; a refused resume changes nothing
+//@ funcs: TransferControl::request_resume; ReplayRing::covers; offsets
+//@ symbolic: pre-state full width; ring is empty or holds one chunk with symbolic offset/data_len; resume file/offset arbitrary
+//@ bounds: ring of <= 1 chunk (ring semantics proper are C13); one operation
+//@ oracle: accepted => acked' == (acked < off <= sent ? off : acked); refused => offsets unchanged
+//@ stubs: Instant::now -> symbolic monotone clock; Condvar::notify_all -> counter
+//@ replay: playback
+#[kani::proof]
+#[kani::stub(std::time::Instant::now, crate::verif_common::now_stub)]
+#[kani::stub(std::sync::Condvar::notify_all, crate::verif_common::notify_all_stub)]
+#[kani::unwind(4)]
+fn c11_resume_ack_bump() {
+    let p = any_pre();
+    let mut ring = ReplayRing::new(kani::any());
+    if kani::any() {
+        let o: u64 = kani::any();
+        let dl: u64 = kani::any();
+        kani::assume(o <= u64::MAX - dl);
+        ring.push(o, dl, false, vec![1u8]);
+    }
+    let tc = mk_with_ring(&p, ring);
+    let f: u32 = kani::any();
+    let off: u64 = kani::any();
+    let r = tc.request_resume(a_peer(), f, off);
+    let (s, a) = tc.offsets();
+    assert!(s == p.sent && a <= s);
+    match r {
+        Ok(o) => {
+            assert!(o == off && !p.cancelled && f == p.file);
+            let want = if off > p.acked && off <= p.sent { off } else { p.acked };
+            assert!(a == want);
+            kani::cover!(a > p.acked);
+        }
+        Err(_) => assert!(a == p.acked, "refused resume changed acked"),
+    }
+    std::mem::forget(tc);
+}
+
+//@ prop: C11
+//@ tier: quick
+//@ clause: vacuity witness for the flow-control family (must FAIL)
+//@ funcs: TransferControl::record_ack
+//@ expect: fail
+//@ stubs: Instant::now -> symbolic monotone clock; Condvar::notify_all -> counter
+//@ replay: playback
+#[kani::proof]
+#[kani::stub(std::time::Instant::now, crate::verif_common::now_stub)]
+#[kani::stub(std::sync::Condvar::notify_all, crate::verif_common::notify_all_stub)]
+#[kani::unwind(4)]
+fn c11_witness() {
+    let p = any_pre();
+    let tc = mk(&p);
+    tc.record_ack(p.file, kani::any());
+    let (_, a) = tc.offsets();
+    assert!(a == p.acked, "verif-witness");
+    std::mem::forget(tc);
+}
+
+// ===========================================================================
+// C13: replay ring and resume
+// ===========================================================================
+
+/// What the harness pushed (the "originally sent" record the oracle uses).
+struct Pushed {
+    off: [u64; 3],
+    dlen: [u64; 3],
+    last: [bool; 3],
+    wire: [u8; 3], // wire length selector 0..=2
+    a: [u8; 3],
+    b: [u8; 3],
+}
+
+fn any_pushed() -> Pushed {
+    let o0: u64 = kani::any();
+    let d: [u64; 3] = kani::any();
+    // documented producer contract: logical offsets do not overflow u64
+    kani::assume((o0 as u128) + (d[0] as u128) + (d[1] as u128) + (d[2] as u128) <= u64::MAX as u128);
+    let wire: [u8; 3] = kani::any();
+    kani::assume(wire[0] <= 2 && wire[1] <= 2 && wire[2] <= 2);
+    Pushed {
+        off: [o0, o0 + d[0], o0 + d[0] + d[1]],
+        dlen: d,
+        last: kani::any(),
+        wire,
+        a: kani::any(),
+        b: kani::any(),
+    }
+}
+
+fn body_of(p: &Pushed, k: usize) -> Vec<u8> {
+    match p.wire[k] {
+        0 => Vec::new(),
+        1 => vec![p.a[k]],
+        _ => vec![p.a[k], p.b[k]],
+    }
+}
+
+fn body_matches(p: &Pushed, k: usize, body: &[u8]) -> bool {
+    match p.wire[k] {
+        0 => body.is_empty(),
+        1 => body.len() == 1 && body[0] == p.a[k],
+        _ => body.len() == 2 && body[0] == p.a[k] && body[1] == p.b[k],
+    }
+}
+
+/// Reference eviction model written from the property statement: keep the most
+/// recent chunk always; otherwise evict oldest first until the wire bytes fit.
+/// Returns the index of the first retained chunk after `n` pushes.
+fn ref_first_retained(p: &Pushed, n: usize, cap: u64) -> usize {
+    let mut start = 0usize;
+    let mut held = 0u64;
+    let mut k = 0usize;
+    while k < n {
+        held += p.wire[k] as u64;
+        while held > cap && k > start {
+            held -= p.wire[start] as u64;
+            start += 1;
+        }
+        k += 1;
+    }
+    start
+}
+
+fn ring_push_n<const N: usize>() {
+    let p = any_pushed();
+    let cap: u64 = kani::any();
+    let mut ring = ReplayRing::new(cap);
+    let mut k = 0;
+    while k < N {
+        ring.push(p.off[k], p.dlen[k], p.last[k], body_of(&p, k));
+        k += 1;
+    }
+    // representation invariant after N pushes (N-1 = arbitrary reachable pre-state, N-th = the step)
+    let start = ref_first_retained(&p, N, cap);
+    let len = ring.chunks.len();
+    assert!(len >= 1 && len == N - start, "retained run is not the oldest-first-evicted suffix");
+    let mut sum = 0u64;
+    let mut i = 0;
+    while i < len {
+        let c = &ring.chunks[i];
+        let src = start + i;
+        assert!(c.offset == p.off[src] && c.data_len == p.dlen[src] && c.last == p.last[src],
+            "retained chunk differs from what was pushed");
+        assert!(body_matches(&p, src, &c.body_bytes), "retained body differs from what was pushed");
+        if i + 1 < len {
+            assert!(ring.chunks[i + 1].offset == c.offset + c.data_len, "ring not contiguous");
+        }
+        sum += c.body_bytes.len() as u64;
+        i += 1;
+    }
+    assert!(ring.bytes_held == sum, "bytes_held out of sync with the retained wire bytes");
+    assert!(sum <= cap || len == 1, "ring holds more than its capacity");
+    assert!(ring.chunks[len - 1].offset == p.off[N - 1], "most recent chunk not retained");
+    assert!(ring.highest_end_offset() == Some(p.off[N - 1] + p.dlen[N - 1]));
+    kani::cover!(len == 1);
+    kani::cover!(len == N);
+    std::mem::forget(ring);
+}
+
+//@ prop: C13
+//@ tier: quick
+//@ clause: buffer always retains the most recent chunk, otherwise never holds more than its byte capacity (wire bytes), evicting oldest first; retained chunks are byte-identical to what was pushed and contiguous
+//@ funcs: ReplayRing::new; ReplayRing::push; ReplayRing::highest_end_offset
+//@ symbolic: capacity (full u64), start offset and logical lengths (full u64, no overflow), wire length 0..=2 per chunk independent of the logical length, body bytes, last flags
+//@ bounds: histories of 1 push from empty
+//@ oracle: reference eviction model from the statement + field-by-field comparison with the pushed record
+#[kani::proof]
+#[kani::unwind(5)]
+fn c13_ring_push_1() {
+    ring_push_n::<1>();
+}
+
+//@ prop: C13
+//@ tier: quick
+//@ clause: as c13_ring_push_1
+//@ funcs: ReplayRing::new; ReplayRing::push; ReplayRing::highest_end_offset
+//@ symbolic: as c13_ring_push_1
+//@ bounds: histories of 2 pushes from empty (every eviction outcome)
+//@ oracle: reference eviction model + comparison with the pushed record
+#[kani::proof]
+#[kani::unwind(5)]
+fn c13_ring_push_2() {
+    ring_push_n::<2>();
+}
+
+//@ prop: C13
+//@ tier: thorough
+//@ clause: as c13_ring_push_1
+//@ funcs: ReplayRing::new; ReplayRing::push; ReplayRing::highest_end_offset
+//@ symbolic: as c13_ring_push_1
+//@ bounds: histories of 3 pushes from empty (every eviction outcome, incl. double eviction in one push)
+//@ oracle: reference eviction model + comparison with the pushed record
+#[kani::proof]
+#[kani::unwind(5)]
+fn c13_ring_push_3() {
+    ring_push_n::<3>();
+}
+
+struct IdSink;
+impl crate::peer::PeerSink for IdSink {
+    fn send_notify(&self, _m: &str, _b: crate::peer::NotifyBody) -> Result<(), crate::peer::PeerSendError> {
+        Ok(())
+    }
+}
+
+fn resume_n<const N: usize>() {
+    let p = any_pushed();
+    let cap: u64 = kani::any();
+    let pre = any_pre();
+    kani::assume(pre.pending.is_none());
+    let tc = mk_with_ring(&pre, ReplayRing::new(cap));
+    let mut k = 0;
+    while k < N {
+        tc.push_replay(p.off[k], p.dlen[k], p.last[k], body_of(&p, k));
+        k += 1;
+    }
+    let f: u32 = kani::any();
+    let off: u64 = kani::any();
+    let start = ref_first_retained(&p, N, cap);
+    // acceptance predicate from the statement
+    let mut boundary = false;
+    if N == 0 {
+        boundary = off == 0;
+    } else {
+        let mut i = start;
+        while i < N {
+            if p.off[i] == off {
+                boundary = true;
+            }
+            i += 1;
+        }
+        if off == p.off[N - 1] + p.dlen[N - 1] {
+            boundary = true;
+        }
+    }
+    let should_accept = f == pre.file && !pre.cancelled && boundary;
+    let r = tc.request_resume(PeerHandle::new(crate::peer::PeerId(42), Arc::new(IdSink)), f, off);
+    match r {
+        Ok(o) => {
+            assert!(should_accept, "resume accepted outside the acceptance predicate");
+            assert!(o == off);
+            assert!(tc.peer().map(|h| h.peer_id()) == Some(crate::peer::PeerId(42)), "accepted resume did not install the new peer");
+            // gapless tail, byte-identical, up to the last byte emitted
+            let tail = tc.replay_chunks_from(off);
+            let mut first = N; // first retained index with offset >= off
+            let mut i = N;
+            while i > start {
+                i -= 1;
+                if p.off[i] >= off {
+                    first = i;
+                }
+            }
+            assert!(tail.len() == N - first, "replay tail has the wrong number of chunks");
+            if tail.len() > 0 {
+                assert!(tail[0].offset == off, "replay tail does not start exactly at the resume offset");
+            } else {
+                assert!(N == 0 || off == p.off[N - 1] + p.dlen[N - 1]);
+            }
+            let mut j = 0;
+            while j < tail.len() {
+                let src = first + j;
+                assert!(tail[j].offset == p.off[src] && tail[j].data_len == p.dlen[src] && tail[j].last == p.last[src]);
+                assert!(body_matches(&p, src, &tail[j].body_bytes), "replayed body differs from what was sent");
+                j += 1;
+            }
+            // the staged resume is delivered exactly once
+            match tc.wait_for_reconnect(Duration::from_secs(0)) {
+                ReconnectOutcome::ResumeReady(pr) => assert!(pr.resume_at_offset == off),
+                _ => panic!("accepted resume was not delivered to the producer"),
+            }
+            match tc.wait_for_reconnect(Duration::from_secs(0)) {
+                ReconnectOutcome::Timeout => {}
+                _ => panic!("resume delivered twice"),
+            }
+            kani::cover!(tail.len() == N);
+            kani::cover!(tail.len() == 0);
+            std::mem::forget(tail);
+        }
+        Err(e) => {
+            assert!(!should_accept, "resume refused although it meets the acceptance predicate");
+            match e {
+                ResumeRejection::Cancelled => assert!(pre.cancelled),
+                ResumeRejection::WrongFileIndex { requested, current } => {
+                    assert!(!pre.cancelled && f != pre.file && requested == f && current == pre.file)
+                }
+                ResumeRejection::OutOfWindow => assert!(!pre.cancelled && f == pre.file && !boundary),
+            }
+            // a refused resume changes nothing
+            assert!(tc.peer().is_none(), "refused resume replaced the producer's peer");
+            assert!(tc.offsets() == (pre.sent, pre.acked));
+            match tc.wait_for_reconnect(Duration::from_secs(0)) {
+                ReconnectOutcome::ResumeReady(_) => panic!("refused resume was staged"),
+                ReconnectOutcome::Cancelled(_) => assert!(pre.cancelled),
+                ReconnectOutcome::Timeout => assert!(!pre.cancelled),
+            }
+            kani::cover!(!pre.cancelled && f == pre.file);
+        }
+    }
+    std::mem::forget(tc);
+}
+
+macro_rules! c13_resume {
+    ($name:ident, $n:expr) => {
+        #[kani::proof]
+        #[kani::stub(std::time::Instant::now, crate::verif_common::now_stub)]
+        #[kani::stub(std::sync::Condvar::notify_all, crate::verif_common::notify_all_stub)]
+        #[kani::stub(std::sync::Condvar::wait_timeout, wait_timeout_unreachable)]
+        #[kani::unwind(5)]
+        fn $name() {
+            resume_n::<$n>();
+        }
+    };
+}
+
+//@ name: c13_resume_n0
+//@ prop: C13
+//@ tier: quick
+//@ clause: resume accepted only for the current file, before cancellation, at zero on an empty buffer; refused resume changes nothing; accepted resume installs the peer and is delivered exactly once
+//@ funcs: TransferControl::request_resume; ReplayRing::covers; replay_chunks_from; wait_for_reconnect; peer; offsets
+//@ symbolic: control state (window, sent, acked<=sent, file, cancelled?), capacity, resume file index and offset, all full width
+//@ bounds: empty ring
+//@ oracle: acceptance predicate and tail from the statement
+//@ stubs: Instant::now -> symbolic monotone clock; Condvar::notify_all -> counter; Condvar::wait_timeout -> unreachable
+//@ replay: playback
+c13_resume!(c13_resume_n0, 0);
+
+//@ name: c13_resume_n1
+//@ prop: C13
+//@ tier: quick
+//@ clause: as c13_resume_n0 plus: accepted at a retained chunk boundary or the trailing edge; replay starts exactly at the offset, byte-identical, up to the last byte emitted
+//@ funcs: TransferControl::push_replay; request_resume; ReplayRing::push; ReplayRing::covers; ReplayRing::replay_from; wait_for_reconnect; peer; offsets
+//@ symbolic: as c13_resume_n0 plus chunk offsets/logical lengths (full u64), wire length 0..=2, body bytes
+//@ bounds: ring built by 1 push
+//@ oracle: reference eviction model + acceptance predicate and tail from the statement
+//@ stubs: Instant::now -> symbolic monotone clock; Condvar::notify_all -> counter; Condvar::wait_timeout -> unreachable
+//@ replay: playback
+c13_resume!(c13_resume_n1, 1);
+
+//@ name: c13_resume_n2
+//@ prop: C13
+//@ tier: quick
+//@ clause: as c13_resume_n1
+//@ funcs: TransferControl::push_replay; request_resume; ReplayRing::push; ReplayRing::covers; ReplayRing::replay_from; wait_for_reconnect; peer; offsets
+//@ symbolic: as c13_resume_n1
+//@ bounds: ring built by 2 pushes (with and without eviction)
+//@ oracle: reference eviction model + acceptance predicate and tail from the statement
+//@ stubs: Instant::now -> symbolic monotone clock; Condvar::notify_all -> counter; Condvar::wait_timeout -> unreachable
+//@ replay: playback
+c13_resume!(c13_resume_n2, 2);
+
+//@ name: c13_resume_n3
+//@ prop: C13
+//@ tier: thorough
+//@ clause: as c13_resume_n1
+//@ funcs: TransferControl::push_replay; request_resume; ReplayRing::push; ReplayRing::covers; ReplayRing::replay_from; wait_for_reconnect; peer; offsets
+//@ symbolic: as c13_resume_n1
+//@ bounds: ring built by 3 pushes (resume after single and double eviction)
+//@ oracle: reference eviction model + acceptance predicate and tail from the statement
+//@ stubs: Instant::now -> symbolic monotone clock; Condvar::notify_all -> counter; Condvar::wait_timeout -> unreachable
+//@ timeout: 3000
+//@ replay: playback
+c13_resume!(c13_resume_n3, 3);
+
+//@ prop: C13
+//@ tier: quick
+//@ clause: a file advance empties the buffer and discards any pending resume (also one staged at offset 0); afterwards only offset 0 of the new file is resumable
+//@ funcs: TransferControl::advance_to_file; push_replay; request_resume; replay_chunks_from; wait_for_reconnect
+//@ symbolic: control state incl. a pending resume at an arbitrary offset, capacity, 2 pushed chunks, next file index, probe offset
+//@ bounds: ring built by 2 pushes
+//@ oracle: replay_chunks_from(0) is empty; resume(next, x) accepted iff x == 0 and not cancelled; no ResumeReady before a new resume
+//@ stubs: Instant::now -> symbolic monotone clock; Condvar::notify_all -> counter; Condvar::wait_timeout -> unreachable
+//@ replay: playback
+#[kani::proof]
+#[kani::stub(std::time::Instant::now, crate::verif_common::now_stub)]
+#[kani::stub(std::sync::Condvar::notify_all, crate::verif_common::notify_all_stub)]
+#[kani::stub(std::sync::Condvar::wait_timeout, wait_timeout_unreachable)]
+#[kani::unwind(5)]
+fn c13_advance_empties_ring() {
+    let p = any_pushed();
+    let pre = any_pre();
+    let tc = mk_with_ring(&pre, ReplayRing::new(kani::any()));
+    tc.push_replay(p.off[0], p.dlen[0], p.last[0], body_of(&p, 0));
+    tc.push_replay(p.off[1], p.dlen[1], p.last[1], body_of(&p, 1));
+    let next: u32 = kani::any();
+    tc.advance_to_file(next);
+    let all = tc.replay_chunks_from(0);
+    assert!(all.is_empty(), "replay buffer not emptied by a file advance");
+    match tc.wait_for_reconnect(Duration::from_secs(0)) {
+        ReconnectOutcome::ResumeReady(_) => panic!("pending resume survived a file advance"),
+        _ => {}
+    }
+    let x: u64 = kani::any();
+    let r = tc.request_resume(a_peer(), next, x);
+    assert!(r.is_ok() == (!pre.cancelled && x == 0), "after an advance only offset 0 of the new file is resumable");
+    kani::cover!(pre.pending == Some(0) && !pre.cancelled);
+    std::mem::forget(all);
+    std::mem::forget(tc);
+}
+
+//@ prop: C13
+//@ tier: quick
+//@ clause: vacuity witness for the ring family (must FAIL)
+//@ funcs: ReplayRing::push
+//@ expect: fail
+#[kani::proof]
+#[kani::unwind(5)]
+fn c13_witness() {
+    let p = any_pushed();
+    let mut ring = ReplayRing::new(kani::any());
+    ring.push(p.off[0], p.dlen[0], p.last[0], body_of(&p, 0));
+    ring.push(p.off[1], p.dlen[1], p.last[1], body_of(&p, 1));
+    assert!(ring.chunks.len() == 2, "verif-witness");
+    std::mem::forget(ring);
+}
+
+// ===========================================================================
+// C12: monitor discipline of the credit / reconnect waits
+//   O1  every operation that turns a waiter's predicate from false to true
+//       issues notify_all (signal on every enabling transition)
+//   O2  the waiter never sleeps on a true predicate, sleeps exactly until the
+//       deadline, and reports faithfully, whatever other threads do to the
+//       state while the lock is released inside Condvar::wait_timeout
+//   O3  state changes only under the lock: by construction (Mutex<Inner>)
+// O1 & O2 & O3 + the documented std Mutex/Condvar semantics give "no lost
+// wake-up under any interleaving" by the standard monitor argument (trusted).
+// ===========================================================================
+
+fn credit_ready(g: &TransferControlInner, chunk: u64) -> bool {
+    let in_flight = (g.sent_offset as u128).saturating_sub(g.acked_offset as u128);
+    g.cancelled.is_some() || in_flight == 0 || in_flight + chunk as u128 <= g.window_bytes as u128
+}
+
+fn reconnect_ready(g: &TransferControlInner) -> bool {
+    g.cancelled.is_some() || g.pending_resume.is_some()
+}
+
+fn ring_0_or_1() -> ReplayRing {
+    let mut ring = ReplayRing::new(kani::any());
+    if kani::any() {
+        let o: u64 = kani::any();
+        let dl: u64 = kani::any();
+        kani::assume(o <= u64::MAX - dl);
+        ring.push(o, dl, false, vec![1u8]);
+    }
+    ring
+}
+
+fn o1_step<const OP: u8>() {
+    let p = any_pre();
+    // the ring only matters to request_resume (op 3); keep it empty elsewhere
+    let tc = if OP == 3 { mk_with_ring(&p, ring_0_or_1()) } else { mk(&p) };
+    let chunk: u64 = kani::any();
+    kani::assume(chunk <= (1u64 << 48));
+    let (bc, br) = {
+        let g = tc.inner.lock().unwrap();
+        (credit_ready(&g, chunk), reconnect_ready(&g))
+    };
+    let n0 = notify_count();
+    match OP {
+        0 => tc.record_ack(kani::any(), kani::any()),
+        1 => tc.cancel("r2"),
+        2 => tc.advance_to_file(kani::any()),
+        3 => {
+            let r = tc.request_resume(a_peer(), kani::any(), kani::any());
+            std::mem::forget(r);
+        }
+        4 => tc.record_sent(kani::any()),
+        _ => {
+            // contiguous push (producer contract)
+            let g = tc.inner.lock().unwrap();
+            let next = g.replay.highest_end_offset().unwrap_or(0);
+            drop(g);
+            let dl: u64 = kani::any();
+            kani::assume(next <= u64::MAX - dl);
+            tc.push_replay(next, dl, false, vec![2u8]);
+        }
+    }
+    let (ac, ar) = {
+        let g = tc.inner.lock().unwrap();
+        (credit_ready(&g, chunk), reconnect_ready(&g))
+    };
+    let enabled = (!bc && ac) || (!br && ar);
+    if enabled {
+        assert!(notify_count() > n0, "a waiter's condition became true without a notify_all: lost wake-up");
+        assert!(OP <= 3, "a send / ring push enabled a waiter");
+    }
+    // vacuity: the enabling transition this operation exists for is reachable
+    kani::cover!(enabled || OP >= 4);
+    kani::cover!(!enabled);
+    std::mem::forget(tc);
+}
+
+macro_rules! c12_o1 {
+    ($name:ident, $op:expr) => {
+        #[kani::proof]
+        #[kani::stub(std::time::Instant::now, crate::verif_common::now_stub)]
+        #[kani::stub(std::sync::Condvar::notify_all, crate::verif_common::notify_all_stub)]
+        #[kani::unwind(4)]
+        fn $name() {
+            o1_step::<$op>();
+        }
+    };
+}
+
+//@ name: c12_o1_ack
+//@ prop: C12
+//@ tier: quick
+//@ clause: O1 - a sufficient acknowledgement (record_ack) that frees credit: whenever the operation turns a parked waiter's condition from false to true it broadcasts on the condition variable
+//@ funcs: TransferControl::record_ack
+//@ symbolic: pre-state full width (window, sent, acked<=sent, file, cancelled?, pending?), waiter chunk length <= 2^48, all arguments of the operation
+//@ bounds: one operation from an arbitrary invariant state; replay ring empty or 1 chunk
+//@ oracle: (credit or reconnect predicate false before and true after) implies the notify counter advanced
+//@ stubs: Condvar::notify_all -> counter (the observable); Instant::now -> symbolic monotone clock
+//@ replay: solver-trace
+c12_o1!(c12_o1_ack, 0);
+
+//@ name: c12_o1_cancel
+//@ prop: C12
+//@ tier: quick
+//@ clause: O1 - cancel (wakes both the credit and the reconnect waiter): whenever the operation turns a parked waiter's condition from false to true it broadcasts on the condition variable
+//@ funcs: TransferControl::cancel
+//@ symbolic: pre-state full width (window, sent, acked<=sent, file, cancelled?, pending?), waiter chunk length <= 2^48, all arguments of the operation
+//@ bounds: one operation from an arbitrary invariant state; replay ring empty or 1 chunk
+//@ oracle: (credit or reconnect predicate false before and true after) implies the notify counter advanced
+//@ stubs: Condvar::notify_all -> counter (the observable); Instant::now -> symbolic monotone clock
+//@ replay: solver-trace
+c12_o1!(c12_o1_cancel, 1);
+
+//@ name: c12_o1_advance
+//@ prop: C12
+//@ tier: quick
+//@ clause: O1 - a file advance (resets in-flight to zero): whenever the operation turns a parked waiter's condition from false to true it broadcasts on the condition variable
+//@ funcs: TransferControl::advance_to_file
+//@ symbolic: pre-state full width (window, sent, acked<=sent, file, cancelled?, pending?), waiter chunk length <= 2^48, all arguments of the operation
+//@ bounds: one operation from an arbitrary invariant state; replay ring empty or 1 chunk
+//@ oracle: (credit or reconnect predicate false before and true after) implies the notify counter advanced
+//@ stubs: Condvar::notify_all -> counter (the observable); Instant::now -> symbolic monotone clock
+//@ replay: solver-trace
+c12_o1!(c12_o1_advance, 2);
+
+//@ name: c12_o1_resume
+//@ prop: C12
+//@ tier: quick
+//@ clause: O1 - a resume: credit-freeing for the credit waiter, staging for the reconnect waiter: whenever the operation turns a parked waiter's condition from false to true it broadcasts on the condition variable
+//@ funcs: TransferControl::request_resume
+//@ symbolic: pre-state full width (window, sent, acked<=sent, file, cancelled?, pending?), waiter chunk length <= 2^48, all arguments of the operation
+//@ bounds: one operation from an arbitrary invariant state; replay ring empty or 1 chunk
+//@ oracle: (credit or reconnect predicate false before and true after) implies the notify counter advanced
+//@ stubs: Condvar::notify_all -> counter (the observable); Instant::now -> symbolic monotone clock
+//@ replay: solver-trace
+c12_o1!(c12_o1_resume, 3);
+
+//@ name: c12_o1_sent
+//@ prop: C12
+//@ tier: quick
+//@ clause: O1 - record_sent: can never enable a waiter: whenever the operation turns a parked waiter's condition from false to true it broadcasts on the condition variable
+//@ funcs: TransferControl::record_sent
+//@ symbolic: pre-state full width (window, sent, acked<=sent, file, cancelled?, pending?), waiter chunk length <= 2^48, all arguments of the operation
+//@ bounds: one operation from an arbitrary invariant state; replay ring empty or 1 chunk
+//@ oracle: (credit or reconnect predicate false before and true after) implies the notify counter advanced
+//@ stubs: Condvar::notify_all -> counter (the observable); Instant::now -> symbolic monotone clock
+//@ replay: solver-trace
+c12_o1!(c12_o1_sent, 4);
+
+//@ name: c12_o1_push
+//@ prop: C12
+//@ tier: quick
+//@ clause: O1 - push_replay: can never enable a waiter: whenever the operation turns a parked waiter's condition from false to true it broadcasts on the condition variable
+//@ funcs: TransferControl::push_replay
+//@ symbolic: pre-state full width (window, sent, acked<=sent, file, cancelled?, pending?), waiter chunk length <= 2^48, all arguments of the operation
+//@ bounds: one operation from an arbitrary invariant state; replay ring empty or 1 chunk
+//@ oracle: (credit or reconnect predicate false before and true after) implies the notify counter advanced
+//@ stubs: Condvar::notify_all -> counter (the observable); Instant::now -> symbolic monotone clock
+//@ replay: solver-trace
+c12_o1!(c12_o1_push, 5);
+
+// ---- O2: waiter loop against arbitrary interference ------------------------
+static mut O2_DEADLINE_S: u64 = 0;
+static mut O2_CHUNK: u64 = 0;
+static mut O2_WAITS: u32 = 0;
+static mut O2_RECONNECT: bool = false;
+static mut O2_SLEPT_ON_TRUE: bool = false;
+static mut O2_BAD_DURATION: bool = false;
+static mut O2_SLEPT_PAST_DEADLINE: bool = false;
+
+/// Condvar::wait_timeout: the lock is released, other threads run, the lock is
+/// re-acquired. Model = havoc the protected state to ANY state other threads
+/// can produce (offsets arbitrary with acked<=sent, file index arbitrary,
+/// cancel only ever set and then sticky, pending resume arbitrary; the window
+/// is immutable after construction), return an arbitrary timed-out flag
+/// (spurious wake-ups included). Records whether the waiter went to sleep on a
+/// true predicate or with a duration other than (deadline - now).
+fn wait_timeout_havoc<'a, T>(
+    _cv: &Condvar,
+    mut guard: std::sync::MutexGuard<'a, T>,
+    dur: Duration,
+) -> std::sync::LockResult<(std::sync::MutexGuard<'a, T>, std::sync::WaitTimeoutResult)> {
+    unsafe {
+        O2_WAITS += 1;
+        kani::assume(O2_WAITS <= 2); // bound: at most 2 sleeps per wait call
+        let inner: &mut TransferControlInner = &mut *((&mut *guard) as *mut T as *mut TransferControlInner);
+        let ready = if O2_RECONNECT { reconnect_ready(inner) } else { credit_ready(inner, O2_CHUNK) };
+        if ready {
+            O2_SLEPT_ON_TRUE = true;
+        }
+        let now = clock_s();
+        if now >= O2_DEADLINE_S {
+            O2_SLEPT_PAST_DEADLINE = true;
+        } else {
+            // exact for deadlines handed in by the harness (credit waiter); deadlines that
+            // std computes as `Instant::now() + timeout` (reconnect waiter) carry Kani's
+            // nondeterministic nanoseconds, hence the one-second tolerance downwards
+            let want = O2_DEADLINE_S - now;
+            let exact = dur.as_secs() == want && dur.subsec_nanos() == 0;
+            let within_1s = dur.as_secs() + 1 == want || exact || (dur.as_secs() == want);
+            if (O2_RECONNECT && !within_1s) || (!O2_RECONNECT && !exact) {
+                O2_BAD_DURATION = true;
+            }
+        }
+        // interference
+        let s: u64 = kani::any();
+        let a: u64 = kani::any();
+        kani::assume(a <= s);
+        inner.sent_offset = s;
+        inner.acked_offset = a;
+        inner.current_file_index = kani::any();
+        if inner.cancelled.is_none() && kani::any() {
+            inner.cancelled = Some(String::from("r2"));
+        }
+        inner.pending_resume = if kani::any() { Some(PendingResume { resume_at_offset: kani::any() }) } else { None };
+        let timed_out: bool = kani::any();
+        Ok((guard, std::mem::transmute::<bool, std::sync::WaitTimeoutResult>(timed_out)))
+    }
+}
+
+//@ prop: C12
+//@ tier: quick
+//@ clause: O2 (credit) - the waiter never sleeps while its condition holds, sleeps exactly until its deadline, returns Ok only when credit is available in the state at return, Cancelled iff cancelled, and Timeout only after a clock reading at/after the deadline with the condition still false (not earlier, not never)
+//@ funcs: TransferControl::wait_for_credit
+//@ symbolic: initial state full width; chunk <= 2^48; deadline; every clock reading (monotone); after each sleep the protected state is havocked to any state other threads can produce; spurious wake-ups
+//@ bounds: at most 2 sleeps per call (3 loop iterations); unwind 4; clock in whole seconds
+//@ oracle: predicate from C11 evaluated on the locked state at each decision point
+//@ stubs: Condvar::wait_timeout -> havoc + arbitrary timed-out flag; Instant::now -> symbolic monotone clock
+//@ replay: solver-trace
+#[kani::proof]
+#[kani::stub(std::time::Instant::now, crate::verif_common::now_stub)]
+#[kani::stub(std::sync::Condvar::wait_timeout, wait_timeout_havoc)]
+#[kani::unwind(4)]
+fn c12_o2_credit_waiter() {
+    let p = any_pre();
+    let tc = mk(&p);
+    let chunk: u64 = kani::any();
+    kani::assume(chunk <= (1u64 << 48));
+    let deadline_s: u64 = kani::any();
+    kani::assume(deadline_s <= (1u64 << 40));
+    unsafe {
+        O2_DEADLINE_S = deadline_s;
+        O2_CHUNK = chunk;
+        O2_RECONNECT = false;
+    }
+    let r = tc.wait_for_credit(chunk, instant_at(deadline_s));
+    let g = tc.inner.lock().unwrap();
+    unsafe {
+        assert!(!O2_SLEPT_ON_TRUE, "waiter went to sleep although its condition was true (missed wake-up window)");
+        assert!(!O2_SLEPT_PAST_DEADLINE, "waiter went to sleep at or after its deadline");
+        assert!(!O2_BAD_DURATION, "waiter slept with a duration other than deadline - now");
+    }
+    match &r {
+        Ok(()) => {
+            assert!(g.cancelled.is_none() && credit_ready(&g, chunk), "Ok without credit in the state at return");
+        }
+        Err(CreditError::Cancelled(s)) => {
+            assert!(g.cancelled.as_deref().map(|x| x.as_bytes() == s.as_bytes()).unwrap_or(false));
+        }
+        Err(CreditError::Timeout) => {
+            assert!(!credit_ready(&g, chunk), "Timeout although the condition held");
+            assert!(clock_s() >= deadline_s, "Timeout before the deadline");
+        }
+    }
+    unsafe {
+        kani::cover!(O2_WAITS == 2 && r.is_ok());
+        kani::cover!(O2_WAITS == 1 && matches!(r, Err(CreditError::Timeout)));
+        kani::cover!(O2_WAITS == 2 && matches!(r, Err(CreditError::Cancelled(_))));
+    }
+    drop(g);
+    std::mem::forget(tc);
+}
+
+//@ prop: C12
+//@ tier: quick
+//@ clause: O2 (reconnect) - same discipline for wait_for_reconnect: never sleeps with a pending resume or cancel present, sleeps until the deadline, ResumeReady carries (and consumes) the staged resume, Timeout only at/after the deadline
+//@ funcs: TransferControl::wait_for_reconnect
+//@ symbolic: initial state full width; timeout (whole seconds <= 2^40); every clock reading; havoc after each sleep; spurious wake-ups
+//@ bounds: at most 2 sleeps per call; unwind 4
+//@ oracle: predicate (cancelled or pending resume) on the locked state at each decision point
+//@ stubs: Condvar::wait_timeout -> havoc + arbitrary timed-out flag; Instant::now -> symbolic monotone clock
+//@ replay: solver-trace
+#[kani::proof]
+#[kani::stub(std::time::Instant::now, crate::verif_common::now_stub)]
+#[kani::stub(std::sync::Condvar::wait_timeout, wait_timeout_havoc)]
+#[kani::unwind(4)]
+fn c12_o2_reconnect_waiter() {
+    let p = any_pre();
+    let tc = mk(&p);
+    let timeout_s: u64 = kani::any();
+    kani::assume(timeout_s <= (1u64 << 40));
+    unsafe {
+        O2_RECONNECT = true;
+        O2_CHUNK = 0;
+    }
+    // wait_for_reconnect reads the clock once to form its deadline; mirror it:
+    // the first reading is t0, deadline = t0 + timeout.
+    let first: u64 = kani::any();
+    kani::assume(first <= (1u64 << 32));
+    unsafe {
+        // force the first clock step by pre-loading the clock and making the
+        // first stubbed step land on `first` is not possible from outside; instead
+        // record the deadline lazily: the stub compares against O2_DEADLINE_S, which
+        // we set from the clock value the function will see first (CLOCK_S + step).
+        // Simplest sound choice: start the clock at `first` with a zero first step.
+        crate::verif_common::CLOCK_S = first;
+        crate::verif_common::FORCE_ZERO_STEPS = 1;
+        // deadline = first reading + timeout (+ up to 1 s of nondeterministic nanoseconds)
+        O2_DEADLINE_S = first + timeout_s + 1;
+    }
+    let r = tc.wait_for_reconnect(Duration::from_secs(timeout_s));
+    let g = tc.inner.lock().unwrap();
+    unsafe {
+        assert!(!O2_SLEPT_ON_TRUE, "reconnect waiter went to sleep although a resume/cancel was present");
+        assert!(!O2_SLEPT_PAST_DEADLINE, "reconnect waiter went to sleep at or after its deadline");
+        assert!(!O2_BAD_DURATION, "reconnect waiter slept with a duration other than deadline - now");
+    }
+    match &r {
+        ReconnectOutcome::ResumeReady(_) => {
+            assert!(g.pending_resume.is_none(), "staged resume not consumed");
+        }
+        ReconnectOutcome::Cancelled(s) => {
+            assert!(g.cancelled.as_deref().map(|x| x.as_bytes() == s.as_bytes()).unwrap_or(false));
+        }
+        ReconnectOutcome::Timeout => {
+            assert!(!reconnect_ready(&g), "Timeout although a resume/cancel was present");
+            assert!(clock_s() >= first + timeout_s, "Timeout before the deadline");
+        }
+    }
+    unsafe {
+        kani::cover!(O2_WAITS == 2 && matches!(r, ReconnectOutcome::ResumeReady(_)));
+        kani::cover!(O2_WAITS == 1 && matches!(r, ReconnectOutcome::Timeout));
+    }
+    drop(g);
+    std::mem::forget(tc);
+}
+
+//@ prop: C12
+//@ tier: quick
+//@ clause: vacuity witness for the O2 family (must FAIL): the havoc stub really is reached and really changes the state
+//@ funcs: TransferControl::wait_for_credit
+//@ expect: fail
+//@ stubs: Condvar::wait_timeout -> havoc; Instant::now -> symbolic monotone clock
+#[kani::proof]
+#[kani::stub(std::time::Instant::now, crate::verif_common::now_stub)]
+#[kani::stub(std::sync::Condvar::wait_timeout, wait_timeout_havoc)]
+#[kani::unwind(4)]
+fn c12_witness() {
+    let p = any_pre();
+    kani::assume(!p.cancelled);
+    let tc = mk(&p);
+    unsafe {
+        O2_DEADLINE_S = 1000;
+        O2_CHUNK = 5;
+        O2_RECONNECT = false;
+    }
+    let r = tc.wait_for_credit(5, instant_at(1000));
+    unsafe {
+        assert!(!(O2_WAITS == 2 && matches!(r, Err(CreditError::Cancelled(_)))), "verif-witness");
+    }
+    std::mem::forget(tc);
+}
+
+//@ prop: C12
+//@ tier: quick
+//@ clause: sanity of the clock model used by the C12 harnesses: stub instants are exactly (secs, 0 ns), ordered and subtractable as std Instants (layout assumption of instant_at)
+//@ funcs: std::time::Instant (Sub, PartialOrd) on stub-built values
+//@ symbolic: two instants (seconds up to 2^41)
+//@ bounds: unwind 4 (std's sub_timespec is recursive)
+//@ oracle: b < a => a - b == (a-b) s exactly, a > b; equal seconds => equal instants
+#[kani::proof]
+#[kani::unwind(4)]
+fn c12_clock_model_sanity() {
+    let a: u64 = kani::any();
+    let b: u64 = kani::any();
+    kani::assume(a <= (1u64 << 41) && b <= a);
+    let ia = instant_at(a);
+    let ib = instant_at(b);
+    let d = ia - ib;
+    assert!(d.as_secs() == a - b && d.subsec_nanos() == 0);
+    assert!((ia > ib) == (a > b) && (ia >= ib));
+    assert!((ia == ib) == (a == b));
+}
